@@ -171,6 +171,24 @@ Fixpoint un_probeR (body : nat -> list nat) (mx : N) (guard fuel p matches : nat
            else Some (p, matches)
   end.
 
+Fixpoint rf_minR (body : nat -> list nat) (mn : N) (fuel count pos : nat) : option (option (nat * nat)) :=
+  match fuel with
+  | O => None
+  | S f => if nlt count mn then
+             match body pos with q :: _ => rf_minR body mn f (S count) q | [] => Some None end
+           else Some (Some (count, pos))
+  end.
+Fixpoint rf_moreR (body : nat -> list nat) (mx : N) (fuel count pos : nat) : option (list nat) :=
+  match fuel with
+  | O => None
+  | S f => if nlt count mx then
+             match body pos with
+             | q :: _ => match rf_moreR body mx f (S count) q with Some l => Some (q :: l) | None => None end
+             | [] => Some []
+             end
+           else Some []
+  end.
+
 Definition gf_guard (p : nat) (len mx : N) : nat :=
   if N.ltb mx umax then N.to_nat (N.min (N.of_nat n) (sadd (N.of_nat p) (smul len mx))) else n.
 
@@ -207,6 +225,12 @@ Fixpoint Rop (o : op) : nat -> list nat :=
            | Some (p', m) => if nlt m mn then [] else int_stepR leng (p + leng * N.to_nat mn) (S p') p'
            | None => []
            end
+  | ORFixed o' mn mx len => fun p =>
+      match rf_minR (Rop o') mn (n + 5) 0 p with
+      | Some (Some (count, pos)) =>
+          match rf_moreR (Rop o') mx (n + 5) count pos with Some l => pos :: l | None => [] end
+      | _ => []
+      end
   | _ => fun _ => []
   end.
 
@@ -216,7 +240,8 @@ Definition body_ok (o : op) : Prop := match o with OCls _ => True | OAtom (_ :: 
    len characters), discharged for compiled programs by match_length's soundness *)
 Fixpoint simple (o : op) : Prop :=
   match o with
-  | OBackref _ | ORepeat _ _ _ _ | ORFixed _ _ _ _ => False
+  | OBackref _ | ORepeat _ _ _ _ => False
+  | ORFixed o' _ _ len => simple o' /\ (0 < len)%N /\ (forall p q, In q (Rop o' p) -> q = p + N.to_nat len)
   | OCapture g o' => simple o' /\ (hb = true -> g < K)
   | OChoice bs => (fix all l := match l with [] => True | x :: t => simple x /\ all t end) bs
   | OSeq os => os <> [] /\ (fix all l := match l with [] => True | x :: t => simple x /\ all t end) os
@@ -304,6 +329,65 @@ Proof.
   apply IH. lia.
 Qed.
 
+(* ReluctantFixed: the minimum first, then one more repetition per resumption *)
+Lemma rf_min_ok body bodyR mn :
+  (forall p s, p <= n -> wf s -> YW (body p s) (bodyR p)) ->
+  forall fuel count pos s, pos <= n -> wf s ->
+    match rf_minR bodyR mn fuel count pos with
+    | Some (Some (c, q)) => exists s1, rf_min body mn fuel count pos s = Ok (Some (c, q), s1) /\ wf s1 /\ q <= n
+    | Some None => exists s1, rf_min body mn fuel count pos s = Ok (None, s1) /\ wf s1
+    | None => rf_min body mn fuel count pos s = Out
+    end.
+Proof.
+  intros Hb. induction fuel as [|f IH]; intros count pos s Hp Hs; cbn [rf_min rf_minR]; auto.
+  destruct (nlt count mn); [|eexists; eauto].
+  specialize (Hb pos s Hp Hs). inversion Hb as [s1 H1 E1 E2|q s1 r ps Hq H1 H2 E1 E2]; cbn [first_of].
+  - eexists; eauto.
+  - apply IH; auto.
+Qed.
+
+Lemma rf_more_ok body bodyR mx position :
+  (forall p s, p <= n -> wf s -> YW (body p s) (bodyR p)) ->
+  forall fuel count pos s, pos <= n -> wf s ->
+    match rf_moreR bodyR mx fuel count pos with
+    | Some l => YW (rf_more body mx position fuel count pos s) l
+    | None => True
+    end.
+Proof.
+  intros Hb. induction fuel as [|f IH]; intros count pos s Hp Hs; cbn [rf_more rf_moreR]; auto.
+  destruct (nlt count mx); [|constructor; auto].
+  destruct (clear_beyond_wf position s Hs) as [s0 [E0 W0]]. rewrite E0.
+  specialize (Hb pos s0 Hp W0). inversion Hb as [s1 H1 E1 E2|q s1 r ps Hq H1 H2 E1 E2].
+  - constructor; auto.
+  - specialize (IH (S count) q).
+    destruct (rf_moreR bodyR mx f (S count) q) as [l|] eqn:El; auto.
+    constructor; auto.
+    all: intros s' Hs'; specialize (IH s' Hq Hs'); rewrite El in IH; exact IH.
+Qed.
+
+Lemma rf_minR_fuel bodyR mn len : 0 < len -> (forall p q, In q (bodyR p) -> q = p + len) ->
+  (forall p q, p <= n -> In q (bodyR p) -> q <= n) ->
+  forall fuel count pos, pos <= n -> n + 1 - pos < fuel -> rf_minR bodyR mn fuel count pos <> None.
+Proof.
+  intros Hl Hfix Hle. induction fuel as [|f IH]; intros count pos Hp Hf; [lia|].
+  cbn [rf_minR]. destruct (nlt count mn); [|discriminate].
+  destruct (bodyR pos) as [|q l] eqn:E; [discriminate|].
+  assert (Hin : In q (bodyR pos)) by (rewrite E; left; auto).
+  pose proof (Hfix _ _ Hin). pose proof (Hle _ _ Hp Hin). apply IH; lia.
+Qed.
+Lemma rf_moreR_fuel bodyR mx len : 0 < len -> (forall p q, In q (bodyR p) -> q = p + len) ->
+  (forall p q, p <= n -> In q (bodyR p) -> q <= n) ->
+  forall fuel count pos, pos <= n -> n + 1 - pos < fuel -> rf_moreR bodyR mx fuel count pos <> None.
+Proof.
+  intros Hl Hfix Hle. induction fuel as [|f IH]; intros count pos Hp Hf; [lia|].
+  cbn [rf_moreR]. destruct (nlt count mx); [|discriminate].
+  destruct (bodyR pos) as [|q l] eqn:E; [discriminate|].
+  assert (Hin : In q (bodyR pos)) by (rewrite E; left; auto).
+  pose proof (Hfix _ _ Hin). pose proof (Hle _ _ Hp Hin).
+  specialize (IH (S count) q ltac:(lia) ltac:(lia)).
+  destruct (rf_moreR bodyR mx f (S count) q); [discriminate|congruence].
+Qed.
+
 (* ---------- induction principle for the nested op type ---------- *)
 Section Ind.
 Variable P : op -> Prop.
@@ -332,7 +416,7 @@ Fixpoint op_ind2 (o : op) : P o :=
   end.
 End Ind.
 
-Opaque gf_probe gf_probeR un_probe un_probeR int_step int_stepR.
+Opaque gf_probe gf_probeR un_probe un_probeR int_step int_stepR rf_min rf_minR rf_more rf_moreR.
 Ltac yw_ifs := repeat match goal with
   | |- YW (if ?c then _ else _) (if ?c then _ else _) => destruct c
   | |- YW (match ?c with Some _ => _ | None => _ end) (match ?c with Some _ => _ | None => _ end) => destruct c
@@ -438,6 +522,21 @@ Proof.
       destruct (nlt m mn); [constructor; auto|].
       apply int_step_ok; auto.
     + exfalso. revert E. apply gf_probeR_fuel; auto. lia.
+  - (* RFixed *) cbn in Hsim. destruct Hsim as (Hs2 & Hlen & Hfix).
+    assert (Hb : forall p s, p <= n -> wf s -> YW (mi input ci multi hb o (0 :: path) p s) (Rop o p))
+      by (intros; apply IHo; auto).
+    assert (Hle : forall p q, p <= n -> In q (Rop o p) -> q <= n).
+    { intros p0 q0 Hp0 Hq0. eapply YW_in; [apply (Hb p0 s Hp0 Hs)|exact Hq0]. }
+    pose proof (rf_min_ok _ _ mn Hb (n + 5) 0 p s Hp Hs) as Km.
+    destruct (rf_minR (Rop o) mn (n + 5) 0 p) as [[[c q]|]|] eqn:Em.
+    + destruct Km as [s1 [K1 [W1 Hq]]]. rewrite K1.
+      pose proof (rf_more_ok _ _ mx p Hb (n + 5) c q) as Kr.
+      destruct (rf_moreR (Rop o) mx (n + 5) c q) as [l0|] eqn:Er.
+      * constructor; auto.
+        all: intros s' Hs'; specialize (Kr s' Hq Hs'); rewrite Er in Kr; exact Kr.
+      * exfalso. revert Er. apply (rf_moreR_fuel (Rop o) mx (N.to_nat l)); auto; lia.
+    + destruct Km as [s1 [K1 W1]]. rewrite K1. constructor; auto.
+    + exfalso. revert Em. apply (rf_minR_fuel (Rop o) mn (N.to_nat l)); auto; lia.
   - (* Unamb *) cbn in Hsim. destruct Hsim as [Hs2 Hbo].
     pose proof (un_probe_ok (mi input ci multi hb o (0 :: path)) (Rop o) mx
                             (fun p s Hp W => IHo Hs2 (0 :: path) p s Hp W) (n + 5) p 0 s Hp Hs) as Kp.
